@@ -112,7 +112,7 @@ EXTRA = {
          ' The float codec of bond types is injective and decoded without rounding; elements are re-created on deepcopy / unpickle from a key that is unique in the element table. copy, subset and join are shown on a model topology to produce exactly the structure the operation calls for, with every preserved field and no object shared with the input.'),
  'C05': ('; every Python dispatcher evaluated on a model trajectory over periodic x cell x opt (which kernel, which box orientation, which orthogonality flag); the numpy reference functions (opt=False) by value against the documented scheme',
          ''),
- 'C06': ('; reduction of the closed-form cubic / quartic roots modulo the relations of their radicals; guard facts for every partial function of the solvers; Trajectory.superpose evaluated as a whole on model trajectories with memory-sharing views (what reaches the kernel in each role, what self.xyz is afterwards, cached traces dropped); paths to the |q|^2 test of msdFromMandG (which adjugate rows the quaternion may come from; identity only when all four vanish); msd_atom_major evaluated for n = 1..9 atoms',
+ 'C06': ('; reduction of the closed-form cubic / quartic roots modulo the relations of their radicals; guard facts for every partial function of the solvers; Trajectory.superpose evaluated as a whole on model trajectories with memory-sharing views (what reaches the kernel in each role, what self.xyz is afterwards, cached traces dropped); paths to the |q|^2 test of msdFromMandG (which adjugate rows the quaternion may come from; identity only when all four vanish); msd_atom_major evaluated for n = 1..9 atoms; complex-pair branches of the quartic solver carry the double root of their real siblings; superpose on a self-reference (reshape shares memory)',
          " Every root expression returned by the Cardano / trigonometric / repeated-root cases of the cubic and by Ferrari's method for the quartic (16 paths) satisfies its polynomial modulo sqrt(u)^2 = u, cbrt(u)^3 = u, the triple-angle identity and the resolvent; every sqrt / acos / cube root / division is taken under conditions that keep its argument in the domain."),
  'C07': ('; dispatch by evaluation over periodic x cell x opt; backbone torsion index builders evaluated on a two-chain model topology',
          ''),
@@ -120,21 +120,21 @@ EXTRA = {
          ' No kernel keeps state between calls.'),
  'C09': ('; find_closest_contact by value numbering: compared vector = difference + whole-number combination of the cell vectors',
          ''),
- 'C10': ('; algebraic value numbering of both loop bodies of compute_neighbors for generic atoms i, j against the definition built from the parameters; face tests and the y row of a z voxel under triclinic cells in the cell list; candidate wrap and voxel sizes of the cell list by value numbering with decoded path conditions',
+ 'C10': ('; algebraic value numbering of both loop bodies of compute_neighbors for generic atoms i, j against the definition built from the parameters; face tests and the y row of a z voxel under triclinic cells in the cell list; candidate wrap and voxel sizes of the cell list by value numbering with decoded path conditions; the two x ranges of a voxel near a cell face do not overlap (binary searches opaque, bounded by their hints); the triclinic pruning interval uses the extrema over the images of all four voxel corners; the result vector only grows by push_back',
          ' In triclinic cells the cell list visits the whole row of y voxels for a z voxel (a single periodic-copy offset loses pairs near half the box).'),
  'C11': ("; evaluation of make_molecules_whole / image_molecules through the class's own methods on a model trajectory (array identity: copy unless inplace; default bond list); no topology-derived memo on the trajectory; find_molecules evaluated on model bond graphs (connected components); a caller-supplied bond order reaches the kernel unchanged",
          ''),
  'C12': ("; evaluation of the infix operand chains on model operands; range / implicit-list / regex condition nodes by evaluation on model tokens; case-sensitivity of the grammar terminals; every keyword's attribute chain evaluated on a topology instantiated from the class sources through a history of edits (insert_atom, delete_atom_by_index, add_bond), containment decided with the class's own __eq__",
          ''),
- 'C13': ('; shrake_rupley evaluated on a model trajectory (mode x selection x changed radii x falsy values), asa_frame by value numbering of one generic iteration with decoded path conditions (target skip, blocker test, point-in-sphere test, area formula)',
+ 'C13': ('; shrake_rupley evaluated on a model trajectory (mode x selection x changed radii x falsy values), asa_frame by value numbering of one generic iteration with decoded path conditions (target skip, blocker test, point-in-sphere test, area formula); a preparatory loop summarised as a running maximum (quick rejection accepted only if the accumulation covers every atom); memset re-initialisation counted only when its size is in bytes',
          ''),
- 'C14': ("; baker_hubbard / wernet_nilsson evaluated on an exact-rational threshold world; _get_bond_triplets on a model topology; hydrogen placement and sentinel-indexed reads with the path conditions in force; the slot of residue ri's hydrogen decided from the offsets stored; donor bonds of mixed participation",
+ 'C14': ("; baker_hubbard / wernet_nilsson evaluated on an exact-rational threshold world; _get_bond_triplets on a model topology; hydrogen placement and sentinel-indexed reads with the path conditions in force; the slot of residue ri's hydrogen decided from the offsets stored; donor bonds of mixed participation; the Python side of kabsch_sander with a recording csr_matrix; no memoisation under the hash of a topology",
          ' The hydrogen-bond criteria are decided on worlds that sit on the thresholds (distance = cutoff, angle = cutoff, presence = freq, cone met with equality).'),
  'C15': ('; compute_dssp and the backbone index arrays evaluated on seven model residues; the state -> character map and the output offset of dssp() by value numbering (switch statements executed); locals read from a ladder are read again after the merges that grow it (calculate_beta_sheets)',
          ''),
- 'C16': ('; tensor value numbering (sa/tensym.py) of the whole-array descriptors on a generic instance of every axis, compute_contacts evaluated on a model topology of unequal residues, RDF functions with histogram / distance calls summarised',
+ 'C16': ('; tensor value numbering (sa/tensym.py) of the whole-array descriptors on a generic instance of every axis, compute_contacts evaluated on a model topology of unequal residues, RDF functions with histogram / distance calls summarised; the matrix decomposed by compute_directors is the inertia tensor of the compound about its centre of mass; no memoisation under the hash of a topology',
          ' Also decided by tensor evaluation: inertia tensor (both implementations), Q tensor and nematic order, dipole moments (sign included), density through cell lengths and angles, squareform, the chunk partition and weights of compute_rdf_t.'),
- 'C17': ('; tensor evaluation of the unitcell_vectors getter / setter on every data-dependent path; lengths and angles from the same object at every call site; box vectors and the LAMMPS box (writer, reader, their composition) by whole-function evaluation; unitcell_volumes against the determinant of the real unitcell_vectors property (normal form, else numeric identity test of the two expressions); a box with a zero diagonal is a cell',
+ 'C17': ('; tensor evaluation of the unitcell_vectors getter / setter on every data-dependent path; lengths and angles from the same object at every call site; box vectors and the LAMMPS box (writer, reader, their composition) by whole-function evaluation; unitcell_volumes against the determinant of the real unitcell_vectors property (normal form, else numeric identity test of the two expressions); a box with a zero diagonal is a cell; save_mdcrd refuses a cell skewed in any frame',
          ''),
  'C18': ("; freshness of the arrays handed out by read() over the class's own methods; seek() as a path interpreter over (position, offset, length) for whence x sign of offset, helpers interpreted in place; tell() after every read of the text formats evaluated on model files (complete and with the last frame cut short)",
          ' read() never hands out (a view of) an array the reader keeps (scratch buffers, caches).'),
